@@ -14,6 +14,7 @@ import (
 	"strconv"
 	"strings"
 	"sync"
+	"time"
 
 	sp "github.com/scipipe/scipipe"
 	"github.com/scipipe/scipipe/components"
@@ -215,6 +216,7 @@ func buildWorkflow(s *spec.Spec) (*sp.Workflow, map[string]*node) {
 			nodes[ps.Name] = &node{proc: p, outParam: func(string) *sp.OutParamPort { return p.OutParam() }}
 		case spec.KRecorder:
 			p := newRecorder(wf, ps.Name)
+			p.delay = time.Duration(ps.DelayMS) * time.Millisecond
 			nodes[ps.Name] = &node{proc: p, in: func(string) *sp.InPort { return p.InPort("in") }, out: func(string) *sp.OutPort { return p.OutPort("out") }}
 		case spec.KParamRec:
 			p := newParamRecorder(wf, ps.Name)
@@ -381,6 +383,7 @@ func goFuncWriteAPI(ps *spec.Proc, t *sp.Task) {
 
 type recorder struct {
 	sp.BaseProcess
+	delay time.Duration
 }
 
 func newRecorder(wf *sp.Workflow, name string) *recorder {
@@ -394,7 +397,14 @@ func newRecorder(wf *sp.Workflow, name string) *recorder {
 func (p *recorder) Run() {
 	defer p.CloseAllOutPorts()
 	i := 0
-	for ip := range p.InPort("in").Chan {
+	for {
+		if p.delay > 0 {
+			time.Sleep(p.delay)
+		}
+		ip, ok := <-p.InPort("in").Chan
+		if !ok {
+			break
+		}
 		vproto.Emit(&vproto.Event{Ev: "rec", Rec: p.Name(), Seq: i, Path: ip.Path()})
 		i++
 		p.OutPort("out").Send(ip)
